@@ -75,6 +75,30 @@ class Late:
         self.v = v
 
 
+class HMemoStr:
+    """printer returns one memoised Doc (built once) that contains a width-dependent contextual part"""
+
+
+class Money:
+    def __init__(self, amount, cur):
+        self.amount, self.cur = amount, cur
+
+
+class BoxU:
+    """unregistered: printed with its own plain repr, which embeds repr(inner)"""
+
+    def __init__(self, inner):
+        self.inner = inner
+
+    def __repr__(self):
+        return 'Box(%r)' % (self.inner,)
+
+
+class Invoice:
+    def __init__(self, number, total):
+        self.number, self.total = number, total
+
+
 class Reentrant:
     """its printer returns a contextual document whose evaluator calls pformat again at layout time"""
 
@@ -133,6 +157,26 @@ def setup():
     def pr(v, ctx):
         return P.pretty_call(ctx, Reg, v.v)
     Late.__repr__ = P.pretty_repr
+    Money.__repr__ = P.pretty_repr
+    Invoice.__repr__ = P.pretty_repr
+
+    @P.register_pretty(Money)
+    def pmoney(v, ctx):
+        return P.pretty_call(ctx, Money, v.amount, v.cur)
+
+    @P.register_pretty(Invoice)
+    def pinvoice(v, ctx):
+        return P.pretty_call(ctx, Invoice, number=v.number, total=v.total)
+
+    memo = {}
+
+    @P.register_pretty(HMemoStr)
+    def pmemostr(v, ctx):
+        if 'doc' not in memo:
+            from prettyprinter.doc import concat as _concat, contextual as _contextual
+            memo['doc'] = _concat(['HMemoStr(', _contextual(
+                lambda indent, column, page_width, ribbon_width: 'page_width=%d' % page_width), ')'])
+        return memo['doc']
     Shape.register(Circle)
     Circle.__repr__ = P.pretty_repr
 
@@ -166,11 +210,13 @@ def setup():
         {'old': OldStyle([1, 2, {'z': 1, 'a': 2}]), 'more': [OldStyle('x')] * 2},
     ]
     VALUES.extend([
+        [HMemoStr(), {'again': HMemoStr()}],
+        Invoice(2, BoxU(Money(10, 'EUR'))),
         {'t': Table(), 'more': [Table()]},
         [P.comment(1, 'one\n \ntwo'), P.trailing_comment([2, 3], 'ends with blanks   ')],
         'trailing blanks   ' * 8,
     ])
-    REPR_CAPABLE[:] = [i for i, v in enumerate(VALUES) if isinstance(v, (Reg, Circle))]
+    REPR_CAPABLE[:] = [i for i, v in enumerate(VALUES) if isinstance(v, (Reg, Circle, Invoice))]
 
 
 def generate(rng, idx, tier):
@@ -186,7 +232,7 @@ def generate(rng, idx, tier):
             ops.append(['pp_new', {s_: rng.choice(DOM[s_]) for s_ in KEYS if rng.random() < p_explicit}])
             continue
         if k == 'pp_use':
-            ops.append(['pp_use', rng.randrange(4), rng.randrange(19), rng.choice(['pformat', 'pprint'])])
+            ops.append(['pp_use', rng.randrange(4), rng.randrange(21), rng.choice(['pformat', 'pprint'])])
             continue
         if k == 'set':
             sub = {s: rng.choice(DOM[s]) for s in SETTABLE if rng.random() < p_set}
@@ -197,7 +243,7 @@ def generate(rng, idx, tier):
             ops.append(['get'])
         else:
             entry = rng.choice(ENTRIES)
-            v = rng.randrange(len(VALUES) if VALUES else 19)
+            v = rng.randrange(len(VALUES) if VALUES else 21)
             explicit = {s: rng.choice(DOM[s]) for s in KEYS if rng.random() < p_explicit}
             end = rng.choice(ENDS)
             if k == 'faulty':
@@ -213,7 +259,7 @@ def generate(rng, idx, tier):
 def _calls_pformat_itself(v, depth=0):
     """values whose printer / __repr__ makes a nested pformat call with defaulted settings: their text
     legitimately depends on the defaults in force"""
-    if isinstance(v, (Reentrant, OldStyle, Late)):
+    if isinstance(v, (Reentrant, OldStyle, Late, Invoice, Money, BoxU)):
         return True
     if depth > 6:
         return False
@@ -428,11 +474,41 @@ def execute(spec):
                 return fail('depends_on_defaults_beyond_effective_settings', op[1], op=op, effective=eff,
                             text_when_called=text[:400], text_under_stock_defaults=again[:400])
     res['sample'] = [o if o[0] != 'call' else o[:2] + o[3:] for o in spec['ops'][:8]]
+    # handed to a pristine sibling process by run(): (value index, effective settings, text)
+    res['rederive'] = [[op[2], eff, text] for op, v, eff, text in seen_calls[-8:]]
     return res
 
 
+def _rederive(records):
+    import warnings as _w
+    _w.simplefilter('ignore')
+    out = []
+    for vi, eff, text in records:
+        again, _how = _expected(VALUES[vi], eff)
+        out.append(again)
+    return out
+
+
 def run(spec):
-    return core.in_fork(lambda: execute(spec), RUN_TIMEOUT)
+    kind, res = core.in_fork(lambda: execute(spec), RUN_TIMEOUT)
+    if kind != 'ok' or res.get('class') or not res.get('rederive') or core.digest_of(spec['ops'])[-1] not in '0123':
+        if kind == 'ok':
+            res.pop('rederive', None)
+        return kind, res
+    # one history in four: the same (value, effective settings) rendered in a process that has printed
+    # nothing else must give the same text (the in-history oracle shares the process state with the calls)
+    records = res.pop('rederive')
+    k2, again = core.in_fork(lambda: _rederive(records), RUN_TIMEOUT)
+    if k2 != 'ok':
+        return k2, again
+    res['counters']['rederived_in_pristine_process'] = len(records)
+    for (vi, eff, text), fresh in zip(records, again):
+        if fresh != text:
+            res['class'] = 'text_depends_on_process_history'
+            res['signature'] = 'value_%d' % vi
+            res['detail'] = dict(value=vi, effective=eff, text_in_history=text[:400], text_in_pristine_process=fresh[:400])
+            break
+    return kind, res
 
 
 def on_timeout(spec):
